@@ -2,6 +2,8 @@ import Driver.Util
 import AslModel.Model.CodeFile
 import AslModel.Model.CodeStmt
 import AslModel.Model.CodeCtl
+import AslModel.Model.CodeOrder
+import AslModel.Generated.ListParams
 /-! Driver mode `c04`: one program per request line; mode `c04s`: one `asl` call with several sources per line.
 
 request `c04`  : `<filehex> <cpu> <seg> <gran> <pc0> <end> st*`
@@ -10,7 +12,10 @@ request `c04s` : the same groups, one per source in command-line order, separate
   st = `e:<hex>`                        a statement that hands these bytes to WriteBytes once
      | `j:<cpu>,<seg>,<gran>,<pc>`      a DontPrint statement (ORG, reservation, SEGMENT, CPU ...): NewRecord(pc) in that context
      | `b:<ofs>,<len|->,<filehex>`      BINCLUDE of a file with these contents
-     | `D:<hex>` | `R:<n>` | `O:<addr>` | `G:<seg>` | `C:<id>,<family>,<seg>=<gran>/<seg>=<gran>...` | `S` | `T`
+     | `D:<hex>` | `R:<n>` | `O:<addr>` | `G:<seg>` | `C:<id>,<family>,<seg>=<gran>[=<listgran>]/...[,<B|L><T|N>]` | `S` | `T`
+     | `W:<v>,<v>...`                   a statement placing these 16-bit data (`Model/CodeOrder.lean`): the bytes handed to the record
+                                        machine are the MODEL's (`lowerM`: word buffer, `TurnWords` = `T|N` of the processor in effect,
+                                        `DreheCodes`), the expected bytes the SPEC's (`lowerS`: `B` = big-endian, `L` = little-endian)
                                         source statements of `Model/CodeCtl.lean`: data, reservation, ORG, SEGMENT, CPU (processor
                                         table entry), SAVE, RESTORE.  A source is given either in these or in `e:`/`j:`/`b:`; the
                                         record-opening decisions are then the MODEL's (`ctlStmts`), the expected cells the SPEC's
@@ -38,24 +43,33 @@ open AslModel.PFile AslModel.CodeFile
 inductive Tok where
   | st (s : Stmt)
   | ctl (x : Ctl)
+  | words (vs : List Nat)
   | passes (n : Nat)
   | budget (n : Nat)
 
 def parseCpu (s : String) : Option Cpu :=
-  match s.splitOn "," with
-  | [i, h, g] =>
+  let core (i h g : String) (fl : String) : Option Cpu :=
     let gs := (g.splitOn "/").mapM (fun (p : String) => match (p.splitOn "=").map String.toNat? with
-      | [some a, some v] => some (b a, b v)
+      | [some a, some v] => some (b a, b v, b v)
+      | [some a, some v, some l] => some (b a, b v, b l)
       | _ => none)
-    match i.toNat?, h.toNat?, gs with
-    | some i, some h, some gs => some ⟨i, b h, gs⟩
-    | _, _, _ => none
+    let flags : Option (Bool × Bool) :=
+      if fl = "" then some (false, false) else if fl = "BT" then some (true, true) else if fl = "BN" then some (true, false)
+      else if fl = "LT" then some (false, true) else if fl = "LN" then some (false, false) else none
+    match i.toNat?, h.toNat?, gs, flags with
+    | some i, some h, some gs, some (big, turn) =>
+      some { id := i, hdr := b h, grans := gs.map (fun x => (x.1, x.2.1)), lgrans := gs.map (fun x => (x.1, x.2.2)), turn := turn, big := big }
+    | _, _, _, _ => none
+  match s.splitOn "," with
+  | [i, h, g] => core i h g ""
+  | [i, h, g, fl] => core i h g fl
   | _ => none
 
 def parseTok (s : String) : Option Tok :=
   if s = "S" then some (.ctl .save)
   else if s = "T" then some (.ctl .restore)
   else if s.startsWith "D:" then (unhex (s.drop 2).toString).map (fun x => Tok.ctl (.data x))
+  else if s.startsWith "W:" then (((s.drop 2).toString.splitOn ",").mapM String.toNat?).map Tok.words
   else if s.startsWith "R:" then (s.drop 2).toString.toNat?.map (fun n => Tok.ctl (.res n))
   else if s.startsWith "O:" then (s.drop 2).toString.toNat?.map (fun n => Tok.ctl (.org n))
   else if s.startsWith "G:" then (s.drop 2).toString.toNat?.map (fun n => Tok.ctl (.segment (b n)))
@@ -88,7 +102,7 @@ def parseGroup (ws : List String) : Option (List Byte × Src × Option Nat × Li
       let stmts := tl.filterMap (fun t => match t with | .st x => some x | _ => none)
       let np := tl.foldl (fun a t => match t with | .passes n => a + n | _ => a) 0
       let q := tl.foldl (fun a t => match t with | .budget n => some n | _ => a) none
-      let ctls := tl.filterMap (fun t => match t with | .ctl x => some x | _ => none)
+      let ctls := tl.filterMap (fun t => match t with | .ctl x => some (WStmt.ctl x) | .words vs => some (WStmt.words vs) | _ => none)
       let ctx : Ctx := ⟨b c, b s, b g⟩
       if ctls.isEmpty then
         some (file, { ctx := ctx, pc0 := pc, stmts := stmts, endS := e, morePasses := np, creator := [] }, q, specCellsS ctx pc stmts)
@@ -96,7 +110,8 @@ def parseGroup (ws : List String) : Option (List Byte × Src × Option Nat × Li
       else
         -- MODEL: the DontPrint decisions of asmallg.c make the events; SPEC: the manual's reading makes the cells
         let s0 := csInit ctx pc
-        some (file, { ctx := ctx, pc0 := pc, stmts := ctlStmts s0 ctls, endS := e, morePasses := np, creator := [] }, q, specCellsC s0 ctls)
+        some (file, { ctx := ctx, pc0 := pc, stmts := ctlStmts s0 (lowerM s0 ctls), endS := e, morePasses := np, creator := [] }, q,
+              specCellsC s0 (lowerS s0 ctls))
     | _, _, _, _, _, _, _ => none
   | _ => none
 
@@ -165,5 +180,25 @@ def handleParse (line : String) : String :=
         | .data r => s!"D:{r.cpu.toNat},{r.seg.toNat},{r.gran.toNat},{r.start},{hex r.data}"
         | .entry a => s!"E:{a}"
       s!"ok creator={hex creator} " ++ " ".intercalate it
+
+/-- mode `c04p`: `<CPU name, upper case> <C: token body>` - the processor description a source generator uses against the
+parameters dumped from the current build (`Generated/ListParams.lean`: `HeaderID`, `TurnWords`, `Grans[]`, `ListGrans[]` after
+`cpu <name>`), and its coherence (`Cpu.Coherent` in CODE: hypothesis of `C04_order_word_bytes`).
+answer: `params=<ok|bad|unknown> coherent=<ok|no>` -/
+def handleParams (line : String) : String :=
+  match words line with
+  | [name, tok] =>
+    match parseCpu tok with
+    | none => "bad-request"
+    | some c =>
+      let coh := if decide (c.Coherent segCode) then "ok" else "no"
+      match AslModel.Generated.listParams.find? (fun r => r.names.contains name) with
+      | none => s!"params=unknown coherent={coh}"
+      | some r =>
+        let segsOk := c.grans.all (fun (sg, g) => r.segs.contains (sg.toNat, g.toNat, (c.lgran sg).toNat))
+        let ok := r.hdr == c.hdr.toNat && r.turn == c.turn && segsOk
+        if ok then s!"params=ok coherent={coh}"
+        else s!"params=bad coherent={coh} build:hdr={r.hdr},turn={r.turn},segs={repr r.segs}"
+  | _ => "bad-request"
 
 end Driver.C04
